@@ -3,7 +3,7 @@
    Models/Cpu.v) makes every host exception of the Python an explicit [Crash]
    outcome; the correspondence check ties it to qvm/cpu.py. *)
 From Coq Require Import ZArith List Bool.
-From QV Require Import Sx Strs Fl Cell Machine Cpu MachineProofs.
+From QV Require Import Sx Strs Fl Cell Machine Cpu Verifier MachineProofs ErrProofs VerifierProofs.
 Import ListNotations.
 Open Scope Z_scope.
 
@@ -87,12 +87,30 @@ Theorem C07_tick_shape : forall m s,
 Proof. exact tick_shape. Qed.
 Print Assumptions C07_tick_shape.
 
-(* refutation witness: ERR before any error (errget with no trap recorded) *)
+(* the positive part: a stack instruction (arithmetic, logic, comparison,
+   conversion, constants, string functions, stack shuffles, jz/jmp) decoded at pc
+   whose operands have the types its rule demands never makes tick raise a host
+   exception - for every module and state (after the fix commits for D17, D18,
+   D37 the guard on values is empty).  The side conditions only exclude the
+   RESUME-NEXT mode, whose statement lookup is covered by C10. *)
+Theorem C07_typed_stack_instr_total : forall m s i size t',
+  in_code m s ->
+  decode (skipn (Z.to_nat (pc s)) (m_code m)) = DOk i size ->
+  eff i (tys (stack s)) = Some t' ->
+  (forall s3 c kw, exec m i (pre_exec s size) = T c kw s3 -> ttarget_ s3 <> TNext) ->
+  (forall s3, exec m i (pre_exec s size) = ZD s3 -> ttarget_ s3 <> TNext) ->
+  exists s', tick m s = Next s'.
+Proof. exact tick_total_on_typed_stack_instr. Qed.
+Print Assumptions C07_typed_stack_instr_total.
+
+(* refutation witness for the unguarded statement: PRINT USING "!"; "" (a
+   compiler-produced instruction sequence) raises IndexError (known finding D16) *)
 Theorem C07_tick_total_refuted :
-  exists m s k s', halted s = false /\ tick m s = Crash k s'.
+  exists m n, let '(_, k, _) := run m n (init_state m (mkScript [] [] [] [])) 0 in
+              k = StCrash CrIndex.
 Proof.
-  exists (mkModule [138; 100] [] [] 0 None), (init_state (mkModule [138; 100] [] [] 0 None) (mkScript [] [] [] [])).
-  eexists; eexists. split; [reflexivity|]. vm_compute. reflexivity.
+  exists (mkModule [39; 0; 3; 43; 0; 0; 52; 43; 0; 1; 39; 0; 4; 27; 2; 2; 100] [[33]; []] [] 0 None), 10%nat.
+  vm_compute. reflexivity.
 Qed.
 Print Assumptions C07_tick_total_refuted.
 
